@@ -523,7 +523,7 @@ Definition quiet (s : fs) (t : sworld) (g : list path) (o : op) : Prop :=
       forall h, sget (shs t) slot = Some h -> sw h = true -> forall f, ~ In (PRename f (spath h)) (pending s)
   | Mkdir p => forall f r, In (PRename f r) (pending s) -> mem_path p g = false
   | Rmdir p => forall f r, In (PRename f r) (pending s) -> child_of r p = false
-  | SyncDir p => forall f r, In (PRename f r) (pending s) -> child_of f p = child_of r p
+  | SyncDir p => is_dir t p = true -> forall f r, In (PRename f r) (pending s) -> child_of f p = child_of r p
   | _ => True
   end.
 
@@ -532,6 +532,7 @@ Proof.
   intro H. assert (X : forall f r, ~ In (PRename f r) (pending s)).
   { intros f r Hin. apply (norename_in s H) in Hin. discriminate. }
   destruct o; cbn; auto; try (intros; intro Hin; eapply X; exact Hin); try (intros f r Hin; exfalso; eapply X; exact Hin).
+  intros _ f r Hin. exfalso. eapply X. exact Hin.
 Qed.
 
 (* ---- one step ------------------------------------------------------------------------------------------- *)
@@ -791,7 +792,7 @@ Proof.
   - (* SyncDir *)
     destruct (nget (names t) p) as [[|i]|] eqn:En.
     + assert (Hd : dir_exists s p = true) by (rewrite (inv_dx _ _ _ HF); apply is_dir_iff; exact En).
-      destruct (InvF_sync_dir s t g p HF Hd Hqt) as [A B]. unfold res. rewrite B. cbn [fst snd wfs whs].
+      destruct (InvF_sync_dir s t g p HF Hd (Hqt (proj2 (is_dir_iff t p) En))) as [A B]. unfold res. rewrite B. cbn [fst snd wfs whs].
       split; [split; assumption|reflexivity].
     + assert (Hd : dir_exists s p = false) by (rewrite (inv_dx _ _ _ HF); unfold is_dir; rewrite En; reflexivity).
       unfold sync_dir, res. rewrite Hd. cbn [negb fst snd wfs whs].
